@@ -130,7 +130,11 @@ End WithEnv.
    supports_protocol(obj, P) = adapt(obj, P, None) is not None *)
 Inductive api := ApiAdapt | ApiAdaptDefault | ApiSupports
                | TraitInstance (mode : nat)      (* Instance(P, adapt="no"/"yes"/"default") = mode 0/1/2 *)
-               | TraitSupports | TraitAdaptsTo.   (* both mode 1 *)
+               | TraitSupports | TraitAdaptsTo    (* both mode 1 *)
+               (* the adaptable-object check as ONE ALTERNATIVE of a compound trait (validate_trait_complex case 19,
+                  ctraits.c:4150-4218): 0 = Either(Supports(P), Int), 1 = Either(Int, Supports(P)),
+                  2.. = Either(Instance(P, adapt="default"), Int); the assigned value is never an int *)
+               | TraitEither (variant : nat).
 
 (* what a caller sees *)
 Inductive value := VSelf | VAdapter (p : list offer) | VDefault.
@@ -183,6 +187,17 @@ Definition run_api (E : env) (fuel : nat) (a : api) : outcome :=
   | TraitAdaptsTo =>
       match validate_adapt 1 provides r with
       | None => OOutOfFuel | Some None => OTraitError | Some (Some v) => OStored VSelf (Some v)
+      end
+  | TraitEither (S (S _)) =>            (* mode 2: `return default_value_for(trait, obj, name)` *)
+      match validate_adapt 2 provides r with
+      | None => OOutOfFuel | Some None => OTraitError | Some (Some v) => OStored v None
+      end
+  | TraitEither _ =>
+      (* mode 1: `break` = next alternative (Int rejects the object) = TraitError; on success the validated value is
+         stored and Supports.post_setattr receives the same validated value (no post_setattr_original_value on the
+         compound trait), so value and shadow coincide *)
+      match validate_adapt 1 provides r with
+      | None => OOutOfFuel | Some None => OTraitError | Some (Some v) => OStored v (Some v)
       end
   end.
 
@@ -283,7 +298,8 @@ Inductive fac :=
 | FNever                  (* returns None *)
 | FIfFlag                 (* adapter iff the ORIGINAL adaptee carries a flag (reads through the chain) *)
 | FMaxDepth (n : nat)     (* adapter iff at most n adapters were applied before this one *)
-| FNotAfter (id : nat).   (* None iff the adaptee is the adapter produced by offer id *)
+| FNotAfter (id : nat)    (* None iff the adaptee is the adapter produced by offer id *)
+| FNeeds (id : nat).      (* adapter iff offer id was applied somewhere before ("only when reviewed") *)
 
 Definition fac_ok (flag : bool) (f : fac) (pre : list offer) : bool :=
   match f with
@@ -292,6 +308,7 @@ Definition fac_ok (flag : bool) (f : fac) (pre : list offer) : bool :=
   | FIfFlag => flag
   | FMaxDepth n => length pre <=? n
   | FNotAfter id => match rev pre with [] => true | o :: _ => negb (oid_ o =? id) end
+  | FNeeds id => existsb (fun o => oid_ o =? id) pre
   end.
 
 Record config := mkConfig {
